@@ -12,6 +12,7 @@ import (
 	"fmt"
 	"os"
 	"testing"
+	"time"
 )
 
 type zzCase struct {
@@ -80,10 +81,20 @@ func TestZZReplay(t *testing.T) {
 		if err := json.Unmarshal(sc.Bytes(), &c); err != nil {
 			t.Fatal(err)
 		}
-		// the case about to run is flushed first so that a hang or crash
-		// can be attributed
-		res := zzRunCase(c)
-		enc.Encode(res)
-		w.Flush()
+		// each case runs under a watchdog: a case that does not return within
+		// 10 s is recorded as a hang and the process exits (the driver
+		// restarts it with the remaining cases)
+		done := make(chan zzResult, 1)
+		go func() { done <- zzRunCase(c) }()
+		select {
+		case res := <-done:
+			enc.Encode(res)
+			w.Flush()
+		case <-time.After(10 * time.Second):
+			enc.Encode(zzResult{ID: c.ID, Outcome: "hang:no return within 10 s"})
+			w.Flush()
+			o.Sync()
+			os.Exit(3)
+		}
 	}
 }
